@@ -229,8 +229,8 @@ func parseEMLHeaders(mailHeader *netmail.Header, msg *Msg) error {
 	// Extract common headers
 	for _, header := range commonHeaders {
 		if value := mailHeader.Get(header.String()); value != "" {
-			if strings.EqualFold(header.String(), HeaderContentType.String()) &&
-				strings.HasPrefix(value, TypeMultipartMixed.String()) {
+			if strings.EqualFold(header.String(), HeaderContentType.String()) {
+				// The Content-Type is generated by the message writer from the message structure
 				continue
 			}
 			msg.SetGenHeader(header, value)
@@ -488,14 +488,13 @@ func parseEMLEncoding(mailHeader *netmail.Header, msg *Msg) {
 //   - msg: A pointer to the Msg object to be updated with content type and charset information.
 func parseEMLContentTypeCharset(mailHeader *netmail.Header, msg *Msg) {
 	if value := mailHeader.Get(HeaderContentType.String()); value != "" {
-		contentType, optional := parseMultiPartHeader(value)
+		_, optional := parseMultiPartHeader(value)
 		if charset, ok := optional["charset"]; ok {
 			msg.SetCharset(Charset(charset))
 		}
 		msg.setEncoder()
-		if contentType != "" && !strings.EqualFold(contentType, TypeMultipartMixed.String()) {
-			msg.SetGenHeader(HeaderContentType, contentType)
-		}
+		// The Content-Type itself is not stored as generic header. It is generated by the message
+		// writer from the message structure and would be written twice otherwise.
 	}
 }
 
